@@ -71,9 +71,13 @@ def validate_parallel(module, cfg, sd, trace, parts, timeout):
     with ThreadPoolExecutor(max_workers=len(dirs)) as ex:
         res = list(ex.map(one, dirs))
     viol, at, n = set(), [], 0
-    for r in res:
+    for d, r in zip(dirs, res):
         viol |= set(r["viol"])
-        at += [tuple(x) for x in r.get("at", [])]
+        for k in range(int(r["chunks"])):
+            for ln in open(os.path.join(d, "at_%d.ndjson" % k)):
+                if ln.strip():
+                    x = json.loads(ln)
+                    at.append((x["t"], x["i"], x["c"], x["s"]))
         n += int(r["n"])
     if n != nlines:
         raise vp.Fatal("trace validation consumed %d of %d lines" % (n, nlines))
